@@ -10,7 +10,8 @@ RULE = ("blocks A(2 atoms) C(3, explicit exclusion) D(4-atom chain + constraint)
         "resname assignments; effective exclusion set of the built molecule (pairs within the molecule-wide nrexcl by BFS over the "
         "observed edges, plus explicit [ exclusions ]) must equal {1<=d(a,b)<=max(excl(block a), excl(block b))} U explicit block "
         "exclusions; uniform inputs keep nrexcl and gain no exclusion; n<=2 also through the written .itp; plus sequences (<=3 tokens, thorough 4) over "
-        "A, D and a two-residue from_itp fragment M (4 atoms) joined by links, exclusion distances {1,2,3}^3 (thorough {0..3}^3). non-trivial = mixed "
+        "A, D and a two-residue from_itp fragment M (4 atoms) joined by links, exclusion distances {1,2,3}^3 (thorough {0..3}^3); plus chains of 2-3 residues over A, C, D whose junction bonds are "
+        "made by explicit by_atom_id links (one link, one link per bond, ordinary backbone link plus explicit ring-closing bonds). non-trivial = mixed "
         "exclusion distances and >=1 inter-residue bond")
 ASSUMPTIONS = ["consecutive atoms of angles/dihedrals are also bonded in the alphabet, so polyply's edge graph equals the bond graph",
                "reference: pmc/ref_genparams.expected_exclusions"]
@@ -33,6 +34,7 @@ def cases(tier):
                     continue
                 yield {"variant": {"links": links, "nrexcl": nre, "names": ["A", "D"], "blocks": "ABCD"}, "n": n, "tier": tier}
     yield from multi_cases(tier)
+    yield from explicit_cases(tier)
 
 
 def effective(natoms, edges, nrexcl, explicit):
@@ -103,6 +105,8 @@ def run_one(variant, spec, rg, stats, case1, program):
 def run_case(case):
     if case.get("kind") in ("multi", "multi1"):
         return check_multi(case)
+    if case.get("kind") in ("explicit", "explicit1"):
+        return check_explicit(case)
     variant = case["variant"]
     spec = gp_cases.make_spec(variant)
     stats = {}
@@ -234,3 +238,79 @@ def check_multi(case):
         elif len(seq) > 1:
             keys.append(json.dumps([seq, nre], sort_keys=True))
     return dict(evals=evals, keys=keys, violations=viols, stats={"inputs_multi": evals}, sample=dict(nre=nre, sequences=len(case["seqs"])))
+
+
+# ------------------------------------------------------------------ inter-residue bonds made by explicit (by_atom_id) links
+def explicit_cases(tier):
+    for combo in itertools.product((1, 2, 3), repeat=3):
+        yield dict(kind="explicit", nre=dict(zip("ACD", combo)), tier=tier)
+
+
+def check_explicit(case):
+    nre = case["nre"]
+    viols, evals, keys = [], 0, []
+    spec = gp_cases.make_spec({"links": [], "nrexcl": nre, "names": ["A", "C", "D"], "blocks": "ABCD"})
+    ff_txt = F.render_ff(spec)
+    seqs = case.get("seqs") or [list(q) for k in (2, 3) for q in itertools.product("ACD", repeat=k)]
+    for seq in seqs:
+        for mode in ("one-link", "link-per-bond", "mixed"):
+            atoms, bonds, explicit_block, first = [], [], [], []
+            for tok in seq:
+                off = len(atoms)
+                blk = F.BLOCKS[tok]
+                names = [a[0] for a in blk["atoms"]]
+                atoms += [nre[tok]] * len(names)
+                for sec in ("bonds", "constraints"):
+                    for at, params, meta in blk["inter"].get(sec, []):
+                        bonds.append((off + names.index(at[0]), off + names.index(at[1])))
+                for at, params, meta in blk["inter"].get("exclusions", []):
+                    explicit_block.append((off + names.index(at[0]), off + names.index(at[1])))
+                first.append(off)
+            inter_bonds = list(zip(first, first[1:]))
+            bonds += inter_bonds
+            by_number = inter_bonds
+            if mode == "mixed":
+                # junctions by the ordinary backbone link; explicit links add a second bond between the last atoms of
+                # consecutive residues (rings across the junction)
+                last = [f - 1 for f in first[1:]] + [len(atoms) - 1]
+                by_number = list(zip(last, last[1:]))
+                bonds += by_number
+            lines = [f"{a + 1} {b + 1} 1 0.4{i} 50{i}" for i, (a, b) in enumerate(by_number)]
+            if mode == "link-per-bond":
+                link_txt = "".join("[ link ]\n[ molmeta ]\nby_atom_id true\n[ bonds ]\n" + ln + "\n" for ln in lines)
+            else:
+                link_txt = "[ link ]\n[ molmeta ]\nby_atom_id true\n[ bonds ]\n" + "\n".join(lines) + "\n"
+            if mode == "mixed":
+                link_txt = F.render_link_ff(F.LINKS["bb"]) + link_txt
+            n = len(seq)
+            rg = dict(n=n, edges=[[i, i + 1] for i in range(n - 1)], resids=[1 + i for i in range(n)], resnames=list(seq))
+            evals += 1
+            case1 = dict(kind="explicit1", nre=nre, seqs=[seq], tier=case["tier"])
+            try:
+                ff = H.parse_ff([("ff", ff_txt), ("ff", link_txt)])
+                mm, _ = H.run_processors(ff, H.build_resgraph(rg))
+            except Exception as exc:  # noqa
+                viols.append(crash_violation(exc, case1, assertion="pipeline-accepts-valid-input", tags=["explicit-link", mode]))
+                continue
+            obs = H.mol_digest(mm.molecule)
+            kpos = {a["key"]: i for i, a in enumerate(obs["atoms"])}
+            explicit = [[kpos[a] for a in at] for at, _, _ in obs["inter"].get("exclusions", [])]
+            edges = {frozenset((kpos[a], kpos[b])) for a, b in obs["edges"]}
+            info = f" | sequence {seq} nrexcl {nre} junctions {mode}"
+            if edges != {frozenset(b) for b in bonds} or len(obs["atoms"]) != len(atoms):
+                viols.append(dict(assertion="explicit-link-makes-its-bonds", tags=["explicit-link", mode],
+                                  message=f"edges {sorted(map(sorted, edges))} expected {sorted(bonds)}" + info, case=case1, detail={}))
+                continue
+            got = effective(len(atoms), edges, obs["nrexcl"], explicit)
+            dist = R.bond_distances(len(atoms), [list(b) for b in bonds])
+            want = {frozenset((a, b)) for a in range(len(atoms)) for b, d in dist[a].items() if a != b and 1 <= d <= max(atoms[a], atoms[b])}
+            want |= {frozenset(p) for p in explicit_block}
+            if got != want and len(viols) < 20:
+                extra = sorted(map(sorted, got - want))[:4]
+                lost = sorted(map(sorted, want - got))[:4]
+                viols.append(dict(assertion="effective-exclusions-exact", tags=["explicit-link", mode],
+                                  message=f"excluded but must not be: {extra}; must be excluded but are not: {lost}; molecule nrexcl={obs['nrexcl']}" + info,
+                                  case=case1, detail={}))
+            if len({nre[t] for t in seq}) > 1:
+                keys.append(json.dumps([seq, nre, mode], sort_keys=True))
+    return dict(evals=evals, keys=keys, violations=viols, stats={"inputs_explicit": evals}, sample=dict(nre=nre, sequences=len(seqs)))
